@@ -72,8 +72,15 @@ def create_tree_using_stacks(g: Grammar, r: ListWrapper, failures_limit=100):
     stacks: dict[type, list[Any]] = {k: [] for k in all_stack_types}
 
     failures = 0
+    decisions = 0
+    genome_length = max(1, len(r.dna))
 
     while not stacks[g.starting_symbol] and failures < failures_limit:
+        decisions += 1
+        if decisions % genome_length == 0:
+            # A whole pass over the genome did not complete a program. Counting it as a failure bounds the mapping:
+            # a genome that only ever pushes values (and so never fails) would otherwise be read around forever.
+            failures += 1
         try:
             weights = g.get_weights()
             target_type: type[Any] = r.choice_weighted(
